@@ -379,6 +379,20 @@ def pipeline_script_case(rep, cseed, sb, tag, force_broken=False):
                 rep.violation(f"fault-free run fails for a working repository ({res.results}) after history {history}",
                               {"kind": "oracle", "tie": "pipeline_script", "case": jc}, tags={"oracle": "final_exit"})
             break
+        if flipflop and i == 0 and rng.random() < 0.7:
+            # removal only: packages disappear upstream (and come back in the next state)
+            less = json.loads(json.dumps(first_repos))
+            for r in less:
+                r["version"]["serial"] = 2
+                for c in r["version"]["codenames"].values():
+                    for cc in c["components"].values():
+                        for pk in cc["arches"].values():
+                            if pk and rng.random() < 0.7:
+                                pk.pop(rng.randrange(len(pk)))
+                        if cc["sources"] and rng.random() < 0.5:
+                            cc["sources"].pop()
+            cur = P.Scenario(less, nthreads=cur.nthreads, autoclean=False)
+            continue
         if flipflop and i == 1:
             back = json.loads(json.dumps(first_repos))
             for r in back:
